@@ -535,7 +535,7 @@ impl<'buf, 'fds, E: Unmarshal<'buf, 'fds> + 'static> Unmarshal<'buf, 'fds> for S
         Vec::<E>::unmarshal(ctx).map(SliceR)
     }
 }
-// aN: written through [E; N] for the lengths below, through the unsized [E] otherwise (Signature of [E; N]); read through Vec<E>
+// aN: written through [E; N] for the lengths below, through the unsized [E] otherwise (3, 6, 7, 9..) (Signature of [E; N]); read through Vec<E>
 arr_flavour!(ArrN);
 sig_like!(ArrN, [E; 3], Signature + 'static);
 impl<E: Marshal + 'static> Marshal for ArrN<E> {
@@ -548,7 +548,6 @@ impl<E: Marshal + 'static> Marshal for ArrN<E> {
             0 => <[E; 0] as Marshal>::marshal(as_arr(v), ctx),
             1 => <[E; 1] as Marshal>::marshal(as_arr(v), ctx),
             2 => <[E; 2] as Marshal>::marshal(as_arr(v), ctx),
-            3 => <[E; 3] as Marshal>::marshal(as_arr(v), ctx),
             4 => <[E; 4] as Marshal>::marshal(as_arr(v), ctx),
             5 => <[E; 5] as Marshal>::marshal(as_arr(v), ctx),
             8 => <[E; 8] as Marshal>::marshal(as_arr(v), ctx),
